@@ -53,7 +53,12 @@ var registry = map[string]func(t *testing.T, c *Collector){
 		scs := c16Scenarios(c.job.Tier)
 		c.res.Bound = fmt.Sprintf("%d scenarios, preemption bound %d", len(scs), scs[0].Bound)
 		runConcScenarios(t, c, scs)
-		c.res.Engine = "R (schedule enumerator in a -race build with a detector-invisible hand-off, real file system)"
+		iters := 30
+		if c.job.Tier != "quick" {
+			iters = 300
+		}
+		freeRunRace(c, scs, iters)
+		c.res.Engine = "R (schedule enumerator in a -race build with a detector-invisible hand-off, real file system) + free-running -race pass of the same scenario bodies"
 	},
 	"C10": func(t *testing.T, c *Collector) {
 		c.res.Rule = "legacy stores (version-2 single-file index, unversioned single-file primary, legacy freelist present or absent, primary tail cut off or not) generated from a set of histories with overwrites and removals; opened with every combination of index/primary file-size limits from {1,40,64,default}: contents must equal the generating map (cut-off keys absent), through a continuation with GC and a rescan reopen; every crash point and torn write of the upgrading open: reopening must complete the upgrade with the same contents; non-trivial = stores with >= 2 keys, plus torn images"
